@@ -519,7 +519,12 @@ class Sym:
         if kind == INT:
             self._zero_div(a, b, INT)
             # python floor semantics; z3 div is euclidean (floor for positive divisor)
-            q = z3.If(b > 0, a / b, (-a) / (-b))
+            if z3.is_int_value(z3.simplify(b)):
+                q = z3.If(b > 0, a / b, (-a) / (-b))
+            else:
+                # symbolic divisor: define the quotient by its (exact) characterisation instead of z3's non-linear div
+                q = cur().fresh("quot", "int")
+                cur().add(z3.If(b > 0, z3.And(q * b <= a, a < q * b + b), z3.And(q * b >= a, a > q * b + b)))
             if want_mod:
                 return Sym(a - q * b, INT)
             return Sym(q, INT)
